@@ -10,6 +10,7 @@ import FFSM2.Lemmas.PrevInv
 import FFSM2.Props.C11
 import FFSM2.Lemmas.ProvWorld
 import FFSM2.Lemmas.CancelTrack
+import FFSM2.Lemmas.Relabel
 import FFSM2.Props.C03
 /-!
 # Run-level theorems: the per-call theorems lifted to every history
@@ -1292,6 +1293,51 @@ theorem C03_history_vetoed_call (cfg : Cfg) (beh : Beh) (w : World) (k i d : Nat
     rw [h.2, List.append_nil]
     exact sig_logEv _ _ _
   · exact ⟨by rw [hg]; rfl, rfl⟩
+
+/-! ### C17: a copy responds like its original -/
+
+theorem stepAll_single (cfg : Cfg) (beh : Beh) (w : World) (k : Nat) (op : Op) (h : op.single = true) :
+    stepAll cfg beh w k op = step cfg beh w k op := by
+  cases op <;> first | rfl | simp [Op.single] at h
+
+theorem onInst_single (op : Op) (j : Nat) (h : op.single = true) : (op.onInst j).single = true := by
+  cases op <;> first | rfl | simp [Op.single] at h
+
+theorem onInst_inst (op : Op) (j : Nat) : (op.onInst j).inst = j := by cases op <;> rfl
+
+/-- the same calls made on instance `j` (holding the same core) instead of instance `i`: same resulting core,
+    same trace up to the instance label — for any sequence of single-instance calls on `i`, from any two
+    worlds, when user code treats the two instances alike -/
+theorem runFrom_relabel (cfg : Cfg) (beh : Beh) (i j : Nat)
+    (hb : ∀ key : Key, key.inst = i → beh (key.withInst j) = beh key) :
+    ∀ (ops : List Op) (w w' : World) (k : Nat), w'.get j = w.get i →
+      (∀ op ∈ ops, op.inst = i ∧ op.single = true) →
+      Mirrors i j (runFrom cfg beh w k ops) (runFrom cfg beh w' k (ops.map (Op.onInst j)))
+  | [], _, _, _, h, _ => ⟨h, rfl⟩
+  | op :: ops, w, w', k, h, hops => by
+    obtain ⟨hi, hs⟩ := hops op (by simp)
+    have hm := step_relabel cfg beh w w' k op j (by rw [hi]; exact h) (by rw [hi]; exact hb) hs
+    rw [hi] at hm
+    simp only [List.map_cons, runFrom]
+    rw [stepAll_single cfg beh w k op hs, stepAll_single cfg beh w' k (op.onInst j) (onInst_single op j hs)]
+    obtain ⟨r1, r2⟩ := runFrom_relabel cfg beh i j hb ops _ _ (k + 1) hm.1 (fun o ho => hops o (List.mem_cons_of_mem _ ho))
+    exact ⟨r1, by rw [hm.2, r2, List.map_append]⟩
+
+/-- **C17 over whole histories — a copy responds to the same inputs with the same callbacks and results.**  Take
+    any world in which instance `i` exists and slot `j` is free, copy `i` into `j`, and then make any sequence of
+    (single-instance) API calls on the copy.  The copy ends in exactly the state the original reaches when the
+    same calls are made on it instead (in the world without the copy), and the two traces are equal event by
+    event — the same callbacks with the same observations, the same actions, the same API results — up to the
+    instance label; provided the user callbacks treat the two instances alike. -/
+theorem C17_history_copy_responds_alike (cfg : Cfg) (beh : Beh) (w : World) (i j k : Nat) (sc : Core)
+    (hj : w.get j = none) (hi : w.get i = some sc)
+    (hb : ∀ key : Key, key.inst = i → beh (key.withInst j) = beh key)
+    (ops : List Op) (hops : ∀ op ∈ ops, op.inst = i ∧ op.single = true) (k' : Nat) :
+    Mirrors i j (runFrom cfg beh w k' ops)
+      (runFrom cfg beh (stepAll cfg beh w k (.copy j i)).1 k' (ops.map (Op.onInst j))) := by
+  have hc := (C17_copy_obsEq cfg beh w k j i sc hj hi).1
+  refine runFrom_relabel cfg beh i j hb ops w _ k' ?_ hops
+  rw [hc, World.get_put_same, hi]
 
 /-- non-vacuity: two instances interleaved, a copy, a vetoed request; instance 0's path is paired and the
     hypotheses of `C01_history` hold for it -/
